@@ -15,6 +15,7 @@ from .. import core, lib, exact as X, alphabet as A
 from ..core import Viol, Family
 from ..icheck import model_inter
 
+EXTRA_HASHSEEDS = (1,)       # thorough tier re-runs the quick space under a second pinned hash seed
 LEVEL = 'model_checking'
 TECHNIQUE = 'closure (breadth-first) search of a pool under intersection on the real code, every edge checked for conformance with the exact model node'
 
